@@ -163,7 +163,10 @@ def make_image(w, h, mname):
     return arr
 
 
-def readback_case(d, w, h, mname, scheme, part, sub=None, stale=False):
+NARROWER = {"F64/npy": "F32/npy", "F64/fits": "F32/fits", "I32/npy": "I16/npy", "I32/fits": "I16/fits", "I16/npy": "U8/npy", "I16/fits": "U8/fits", "RGBA/png": "RGB/png", "F32/npy": "F16x3/npy"}
+
+
+def readback_case(d, w, h, mname, scheme, part, sub=None, stale=False, via="direct"):
     """sub = (ix, iy, sw, sh): tile only that sub-image, placed inside the (w, h) tiling.
     stale: the output directory already holds a complete earlier tiling of a fully defined image of the
     same size, and the image tiled now is undefined over all of its share of tile (0, 0)."""
@@ -176,10 +179,14 @@ def readback_case(d, w, h, mname, scheme, part, sub=None, stale=False):
     cfg = {"width": w, "height": h, "mode": mname, "scheme": scheme, "sub": sub}
     if stale:
         cfg["over_existing_tiling"] = True
+    if via != "direct":
+        # "builder": through Builder.prepare/execute_study_tiling; "reuse": the SAME tiling object has tiled an
+        # image of a narrower mode of the same size (into another directory) before
+        cfg["via"] = via
     part.case(nontrivial=True)
 
     def bad(clause, detail):
-        part.violation("readback/%s%s/%s" % (clause, "/over-existing-tiling" if stale else "", mname), "%r: %s" % (cfg, detail), cfg)
+        part.violation("readback/%s%s%s/%s" % (clause, "/over-existing-tiling" if stale else "", "" if via == "direct" else "/via-" + via, mname), "%r: %s" % (cfg, detail), cfg)
 
     arr = make_image(w, h, mname)
     out = os.path.join(d, "rb_%d_%d_%s_%s" % (w, h, mname.replace("/", "_"), scheme.replace("/", "")))
@@ -198,12 +205,27 @@ def readback_case(d, w, h, mname, scheme, part, sub=None, stale=False):
                     arr[: max(0, 256 - gy0), : max(0, 256 - gx0)] = 0
             if sub is None:
                 img = Image.from_array(arr.copy(), default_format=fmt)
-                tiling = tile_study_image(img, pio)
+                if via == "reuse" and mname in NARROWER:
+                    n_dt, n_ch, n_fmt = MODES[NARROWER[mname]]
+                    tiling = StudyTiling(w, h)
+                    first = make_image(w, h, NARROWER[mname])
+                    tiling.tile_image(Image.from_array(first, default_format=n_fmt), PyramidIO(out + "_first", scheme=scheme, default_format=n_fmt))
+                    tiling.tile_image(img, pio)
+                elif via == "builder":
+                    b0 = Builder(pio)
+                    tiling = b0.prepare_study_tiling(img)
+                    b0.execute_study_tiling(img, tiling)
+                else:
+                    tiling = tile_study_image(img, pio)
             else:
                 ix, iy, sw, sh = sub
                 tiling = StudyTiling(w, h)
                 st = tiling.compute_for_subimage(ix, iy, sw, sh)
-                st.tile_image(Image.from_array(arr[iy : iy + sh, ix : ix + sw].copy(), default_format=fmt), pio)
+                simg = Image.from_array(arr[iy : iy + sh, ix : ix + sw].copy(), default_format=fmt)
+                if via == "builder":
+                    Builder(pio).execute_study_tiling(simg, st)
+                else:
+                    st.tile_image(simg, pio)
                 # everything outside the sub-image is undefined in the expected canvas
                 keep = np.zeros(arr.shape[:2], bool)
                 keep[iy : iy + sh, ix : ix + sw] = True
@@ -299,7 +321,7 @@ def _readback(job):
     with scratch("c08") as d:
         for item in job:
             (w, h, m, scheme) = item[:4]
-            readback_case(d, w, h, m, scheme, part, sub=item[4] if len(item) > 4 else None, stale=bool(len(item) > 5 and item[5]))
+            readback_case(d, w, h, m, scheme, part, sub=item[4] if len(item) > 4 else None, stale=bool(len(item) > 5 and item[5]), via=item[6] if len(item) > 6 else "direct")
             import shutil
 
             for e in os.listdir(d):
@@ -356,6 +378,14 @@ def run(tier, seed):
     for (w, h) in [(513, 300), (300, 513), (600, 520)] + ([(1025, 260), (257, 257)] if tier == "thorough" else []):
         for m in ("F32/fits", "F32/npy", "RGBA/png", "F64/fits", "F16x3/npy"):
             rb.append((w, h, m, "L/Y/YX" if (w + len(m)) % 2 else "LXY", None, True))
+    # the Builder's prepare/execute route (whole images and sub-tilings), and one tiling object re-used for a
+    # second image of a wider mode
+    for (w, h), sb in subs[:3] + [((513, 300), None), ((257, 257), None)]:
+        for m in ("F32/fits", "RGBA/png", "I16/npy"):
+            rb.append((w, h, m, "L/Y/YX", sb, False, "builder"))
+    for (w, h) in [(300, 270), (257, 513)]:
+        for m in sorted(NARROWER):
+            rb.append((w, h, m, "LXY" if m.endswith("npy") else "L/Y/YX", None, False, "reuse"))
     rb = rng_order(rb, seed)
     n = max(1, len(rb) // 6)
     for i in range(0, len(rb), 6):
@@ -369,7 +399,7 @@ def replay(payload):
     part = Part()
     if "mode" in r:
         with scratch("c08r") as d:
-            readback_case(d, r["width"], r["height"], r["mode"], r["scheme"], part, sub=tuple(r["sub"]) if r.get("sub") else None, stale=bool(r.get("over_existing_tiling")))
+            readback_case(d, r["width"], r["height"], r["mode"], r["scheme"], part, sub=tuple(r["sub"]) if r.get("sub") else None, stale=bool(r.get("over_existing_tiling")), via=r.get("via", "direct"))
     else:
         geometry_case(r["width"], r["height"], part, sub=tuple(r["sub"]) if r.get("sub") else None)
     for sig, (detail, _) in part.violations.items():
